@@ -267,6 +267,22 @@ func Judge(r *Run) *Judged {
 	judgeReplaced(r, j, cl, by)
 	judgeOwnership(r, j, cl)
 	judgeGrowth(r, j)
+	judgeTamper(r, j, cl)
+	// C15 (whole stack): after a write failure or a kill, what is served from the store is still byte-exact
+	if firedPrefix(r.Faults, "disk.e") || r.Crashes > 0 {
+		for _, c := range cl {
+			if c.stored && c.B != nil {
+				j.count("C15", "served-torn")
+			}
+		}
+		for _, v := range j.Violations {
+			if v.Prop == "C05" && v.Rule == "stored-copy-differs" {
+				v.Prop, v.Rule = "C15", "served-torn"
+				v.Sig = "served-torn:" + strings.TrimPrefix(v.Sig, "stored-copy-differs:")
+				j.Violations = append(j.Violations, v)
+			}
+		}
+	}
 	if len(r.LeakStacks) > 0 {
 		j.count("C20", "goroutine-leak")
 		first := r.LeakStacks[0]
@@ -1277,5 +1293,59 @@ func judgeServedForbidden(r *Run, j *Judged, c *cls) {
 	j.count("C06", "forbidden-served")
 	if why := storeForbidden(c.B); why != "" {
 		j.fail("C06", "forbidden-served", e, "", "response sid=%d served from the store although it must never have been stored: %s", c.B.SID, why)
+	}
+}
+
+// ---------------- C17 (whole stack): a tampered encrypted entry is a miss ----------------
+
+func judgeTamper(r *Run, j *Judged, cl []*cls) {
+	if r.Scn.Backend != "fsenc" || len(r.Corrupted) == 0 {
+		return
+	}
+	for _, cr := range r.Corrupted {
+		// the entry stays tampered until the key is written again
+		until := ^uint64(0)
+		for _, s := range r.Store {
+			if s.Kind == "set" && s.Key == cr.Key && s.Applied && s.Seq > cr.Seq && s.Seq < until {
+				until = s.Seq
+			}
+		}
+		for _, s := range r.Store {
+			if s.Kind != "get" || s.Key != cr.Key || s.Seq <= cr.Seq || s.Seq >= until || s.Fault != "" {
+				continue
+			}
+			j.count("C17", "tamper-accepted")
+			if s.Err == "" {
+				e := r.exchFor(s.Owner, s.OwnerOp)
+				j.fail("C17", "tamper-accepted", e, "transport", "Get of key %q returned %d bytes although its file %s had been modified at rest (seq %d)", s.Key, len(s.Val), cr.Path, cr.Seq)
+			}
+		}
+	}
+	for _, c := range cl {
+		if !c.stored || c.B == nil {
+			continue
+		}
+		for _, cr := range r.Corrupted {
+			if !strings.Contains(cr.Key, "#") {
+				continue
+			}
+			// was this response's entry tampered with after it was last written and before this exchange read it?
+			lastSet := uint64(0)
+			for _, s := range r.Store {
+				if s.Kind == "set" && s.Key == cr.Key && s.Applied && s.Seq < c.e.SeqInv && s.Seq > lastSet {
+					lastSet = s.Seq
+				}
+			}
+			readIt := false
+			for _, s := range c.e.Store {
+				if s.Kind == "get" && s.Key == cr.Key {
+					readIt = true
+				}
+			}
+			if readIt && cr.Seq > lastSet && cr.Seq < c.e.SeqInv {
+				j.count("C17", "tamper-served")
+				j.fail("C17", "tamper-served", c.e, "", "stored response sid=%d served from entry %q whose file had been modified at rest (seq %d)", c.B.SID, cr.Key, cr.Seq)
+			}
+		}
 	}
 }
